@@ -271,6 +271,13 @@ theorem dispatch_panic (env : DEnv) (s : DState) (caller : SessKey) (req : Nat) 
   · exact syncError_panic ..
   · rfl
 
+theorem dispatchL_panic (env : DEnv) (s : DState) (caller : SessKey) (req : Nat) (callee : SessKey) (invReq : Nat)
+    (v : Invk) (timeout : Nat) (m : Msg) : (dispatchL env s caller req callee invReq v timeout m).panic = none := by
+  unfold dispatchL
+  split
+  · exact syncError_panic ..
+  · rfl
+
 /-- A registration satisfying the invariant always yields a callee: the Go `panic("multiple callees
     registered … with 'single' policy")` is unreachable.  (Uses `RegsOk.known`: `dealer.register` refuses
     invocation policies outside the six known ones; without that check the panic was reachable, see
@@ -311,7 +318,7 @@ theorem syncCall_no_panic {env : DEnv} {s : DState} (h : DealerInv s) (caller : 
       rw [hf] at hf'; cases hf'
     · split
       · rfl
-      · exact dispatch_panic ..
+      · exact dispatchL_panic ..
   · split
     · rfl
     · rename_i reg hm
